@@ -49,6 +49,7 @@ type Server struct {
 	healthServed   uint64 // number of health/state responses sent
 	kvServed       uint64
 	CatalogErr     map[string]bool // service names whose catalog lookup fails (fault injection)
+	healthWake     uint64          // bumped by WakeHealth: parked health queries return with the unchanged index
 }
 
 func New() *Server {
@@ -95,6 +96,15 @@ func (s *Server) SetCatalogErr(name string, fail bool) {
 		delete(s.CatalogErr, name)
 	}
 	s.mu.Unlock()
+}
+
+// WakeHealth lets parked health queries return now with the unchanged index, as Consul does
+// when the wait time of a blocking query has elapsed.
+func (s *Server) WakeHealth() {
+	s.mu.Lock()
+	s.healthWake++
+	s.mu.Unlock()
+	s.cond.Broadcast()
 }
 
 // Touch bumps the health index without changing anything (watchers wake up and re-read).
@@ -182,7 +192,8 @@ func waitIndex(r *http.Request) uint64 {
 func (s *Server) health(w http.ResponseWriter, r *http.Request) {
 	idx := waitIndex(r)
 	s.mu.Lock()
-	for idx >= s.healthIndex && r.Context().Err() == nil {
+	wake := s.healthWake
+	for idx >= s.healthIndex && wake == s.healthWake && r.Context().Err() == nil {
 		s.healthParkedAt = idx
 		s.cond.Wait()
 	}
